@@ -13,6 +13,7 @@ import (
 	"verif/harness/rig"
 
 	"github.com/attestantio/dirk/rules"
+	"github.com/attestantio/dirk/util/verifhook"
 )
 
 const gvr = "0x04700007fabc8282644aed6d1c7c9e21d38a03a0c4ba193f3afe428824b3a673"
@@ -233,6 +234,7 @@ func C10(cfg Cfg) int {
 			}
 		}
 	}
+	c10Faults(run, cfg)
 	if run.Get("exit_0") == 0 || run.Get("boundary_probes") == 0 {
 		run.Inconclusive("no successful import was observed")
 	}
@@ -377,4 +379,88 @@ func c10GenFile(r *rand.Rand, keys []*rig.Key, db map[[48]byte]trip) (*icFile, s
 		}
 	}
 	return f, kind, fileMax, shapes
+}
+
+// c10Faults: storage faults during an import (in-process, through the verif hook).  Whatever fails, an import
+// that REPORTS success must have recorded everything it was given, and no import may lower a record.
+func c10Faults(run *evid.Run, cfg Cfg) {
+	r := cfg.Rand("c10-faults")
+	base := filepath.Join(cfg.Work, "faults")
+	_ = os.RemoveAll(base)
+	_ = rig.NewBaseDir(base)
+	svc, err := rig.OpenRules(base)
+	if err != nil {
+		run.Inconclusive(err.Error())
+		return
+	}
+	defer svc.Close(context.Background())
+	defer verifhook.Set(nil)
+	for k := 0; k < cfg.N(150, 3000) && run.NumViolations() < 5; k++ {
+		keys := rig.DetKeys(fmt.Sprintf("c10f-%d", k), 3)
+		// Some prior state.
+		for _, key := range keys {
+			if r.Intn(2) == 0 {
+				ruleAtt(svc, key.Pub, uint64(r.Intn(20)), uint64(20+r.Intn(20)))
+			}
+			if r.Intn(2) == 0 {
+				ruleProp(svc, key.Pub, uint64(r.Intn(500)))
+			}
+		}
+		prev, _ := exportTrips(svc)
+		prot := map[[48]byte]*rules.SlashingProtection{}
+		for _, key := range keys[:1+r.Intn(3)] {
+			p := &rules.SlashingProtection{PubKey: key.Pub, HighestProposedSlot: -1, HighestAttestedSourceEpoch: -1, HighestAttestedTargetEpoch: -1}
+			cur := prev[key.Pub48()]
+			if r.Intn(4) > 0 {
+				p.HighestProposedSlot = maxi(cur.Slot, 0) + int64(r.Intn(1000))
+			}
+			if r.Intn(4) > 0 {
+				p.HighestAttestedSourceEpoch = maxi(cur.Src, 0) + int64(r.Intn(50))
+				p.HighestAttestedTargetEpoch = maxi(cur.Tgt, 0) + int64(r.Intn(50))
+			}
+			prot[key.Pub48()] = p
+		}
+		failAt, hits := 1+r.Intn(5), 0
+		fired := false
+		verifhook.Set(func(name string, _ [][]byte) error {
+			if name == "store.Store.pre" || name == "store.BatchStore.pre" {
+				hits++
+				if hits == failAt {
+					fired = true
+					return errInjected
+				}
+			}
+			return nil
+		})
+		ierr := svc.ImportSlashingProtection(context.Background(), prot)
+		verifhook.Set(nil)
+		now, _ := exportTrips(svc)
+		run.Eval(1)
+		run.Distinct(fmt.Sprintf("import fault at write %d fired=%v records=%d reported-ok=%v", failAt, fired, len(prot), ierr == nil))
+		witness := map[string]any{"fault_at_write": failAt, "fault_fired": fired, "import_error": fmt.Sprint(ierr), "before": fmtTrips(prev), "after": fmtTrips(now)}
+		for key, p := range prev {
+			n := now[key]
+			if n.Slot < p.Slot || n.Src < p.Src || n.Tgt < p.Tgt {
+				run.Violate(fmt.Sprintf("an import with a storage fault lowered the record of key %x from %+v to %+v", key[:6], p, n), witness)
+			}
+		}
+		if fired {
+			run.Count("import_faults_fired", 1)
+		}
+		if ierr == nil {
+			run.Count("imports_reported_ok_under_fault_schedule", 1)
+			for key, p := range prot {
+				n, ok := now[key]
+				if !ok {
+					n = trip{-1, -1, -1}
+				}
+				if n.Slot < p.HighestProposedSlot || n.Src < p.HighestAttestedSourceEpoch || n.Tgt < p.HighestAttestedTargetEpoch {
+					run.Violate(fmt.Sprintf("the import reported success although a write failed, and key %x holds %+v instead of slot %d / source %d / target %d", key[:6], n, p.HighestProposedSlot, p.HighestAttestedSourceEpoch, p.HighestAttestedTargetEpoch), witness)
+				}
+			}
+		}
+	}
+	if run.Get("import_faults_fired") == 0 {
+		run.Inconclusive("no import fault fired")
+	}
 }
